@@ -165,7 +165,8 @@ func (a *dataSetAof) Close() {
 	}
 	a.mux.Lock()
 	writer := a.writer
-	readers := a.readers
+	// copy : DelReader() shifts the elements of a.readers in place
+	readers := append([]*AofRotateReader(nil), a.readers...)
 	a.mux.Unlock()
 	if writer != nil {
 		writer.Close()
